@@ -269,6 +269,19 @@ def gen_C04(tier, seed):
             for v1 in vals[::5]:
                 for v2 in vals[::7]:
                     out.append(f"ediff {p3(parts_of(v1) + (t1,))} {p3(parts_of(v2) + (t2,))}")
+    # operands whose century fields are as far apart as an i16 difference can hold, and one beyond (the true results are
+    # within a few nanoseconds of the bounds, representable or not depending on the nanosecond fields)
+    for c1, c2 in ((16384, -16384), (16383, -16384), (16385, -16384), (16384, -16385), (32767, -1), (32767, -2), (32766, -2), (0, -32768),
+                   (-1, -32768), (1, -32767), (32767, -32768), (20000, -20000)):
+        for n1, n2 in ((0, 5), (5, 0), (7, 7), (0, 0), (NPC - 1, 0), (0, NPC - 1)):
+            for t in (0, 4, 5):
+                a, b = (c1, n1, t), (c2, n2, t)
+                out.append(f"ediff {p3(a)} {p3(b)}")
+                out.append(f"ediff {p3(b)} {p3(a)}")
+                out.append(f"esub {p3(a)} {c2} {n2}")
+                out.append(f"esub {p3(b)} {c1} {n1}")
+                out.append(f"eadd {p3(a)} {-c2 - 1} {(NPC - n2) % NPC}")
+                out.append(f"eadd {p3(b)} {c1} {n1}")
     # sums and differences landing exactly on (or one nanosecond beside) a century multiple
     rb = random.Random(seed * 29 + 4)
     for _ in range(budget(tier, 600, 20000)):
